@@ -45,20 +45,21 @@ type trCfg struct {
 }
 
 type sessCfg struct {
-	Loc       map[string][]string    `json:"loc"`
-	Nat       map[string]string      `json:"nat"`
-	Roles     map[string]string      `json:"roles"`
-	TbCmp     int                    `json:"tbcmp"`
-	Signal    map[string][][2]string `json:"signal"`
-	Presignal map[string][][2]string `json:"presignal"`
-	Unreach   [][2]string            `json:"unreach"`
-	MaxReq    int                    `json:"maxReq"`
-	Renom     bool                   `json:"renom"`
-	NomBase   uint32                 `json:"nomBase"`
-	Lite      map[string]bool        `json:"lite"`
-	CheckPrio map[string]bool        `json:"checkPrio"`
-	Walk      walkCfg                `json:"walk"`
-	Tr        trCfg                  `json:"tr"`
+	Loc        map[string][]string    `json:"loc"`
+	Nat        map[string]string      `json:"nat"`
+	Roles      map[string]string      `json:"roles"`
+	TbCmp      int                    `json:"tbcmp"`
+	Signal     map[string][][2]string `json:"signal"`
+	Presignal  map[string][][2]string `json:"presignal"`
+	Unreach    [][2]string            `json:"unreach"`
+	MaxReq     int                    `json:"maxReq"`
+	Renom      bool                   `json:"renom"`
+	PreRestart bool                   `json:"preRestart"`
+	NomBase    uint32                 `json:"nomBase"`
+	Lite       map[string]bool        `json:"lite"`
+	CheckPrio  map[string]bool        `json:"checkPrio"`
+	Walk       walkCfg                `json:"walk"`
+	Tr         trCfg                  `json:"tr"`
 }
 
 func mergeJSON(dst, src map[string]any) {
@@ -460,6 +461,33 @@ func runSession(t *testing.T, cfg *sessCfg, job *sessJob, rng *mrand.Rand, sched
 			}
 		}()
 	}
+	// Restart while the agent is still New (candidates gathered and signalled, Dial/Accept not yet called):
+	// whatever the previous generation held must be gone; then gather and signal again so the walk starts as usual
+	preResidue := map[string][]int{"A": {0, 0, 0, 0, 0}, "B": {0, 0, 0, 0, 0}}
+	if cfg.PreRestart {
+		for _, n := range []string{"A", "B"} {
+			u, p := cred(n, 1)
+			if err := S[n].ag.Restart(u, p); err != nil {
+				t.Fatal(err)
+			}
+			synctest.Wait()
+			sn := S[n].ag.VerifSnapshot()
+			sel := 0
+			if sn.Sel != 0 {
+				sel = 1
+			}
+			preResidue[n] = []int{len(sn.Pairs), len(sn.Locals), len(sn.Remotes), len(sn.Pend) + sn.ByID, sel}
+			_ = S[n].drainCB
+			if err := S[n].ag.GatherCandidates(); err != nil {
+				t.Fatal(err)
+			}
+			synctest.Wait()
+			for _, sg := range cfg.Presignal[n] {
+				_ = S[n].ag.AddRemoteCandidate(mkCand(sg[0], sg[1]))
+				synctest.Wait()
+			}
+		}
+	}
 	start("A")
 	synctest.Wait()
 	start("B")
@@ -652,11 +680,12 @@ func runSession(t *testing.T, cfg *sessCfg, job *sessJob, rng *mrand.Rand, sched
 		peer := other(b)
 		kinds := []string{"req", "succ", "err", "ind"}
 		srcs := []string{"x9"}
-		pl := cfg.Loc[peer][0]
-		if p, ok := cfg.Nat[pl]; ok {
-			pl = p
+		for _, pl := range cfg.Loc[peer] {
+			if p, ok := cfg.Nat[pl]; ok {
+				pl = p
+			}
+			srcs = append(srcs, pl)
 		}
-		srcs = append(srcs, pl)
 		dst := cfg.Loc[b][0]
 		if p, ok := cfg.Nat[dst]; ok {
 			dst = p
@@ -738,7 +767,12 @@ func runSession(t *testing.T, cfg *sessCfg, job *sessJob, rng *mrand.Rand, sched
 	reachable := func(m mmsg) bool { return agentAddr[m.Dst] && !unreach[[2]string{m.Src, m.Dst}] }
 
 	collect()
-	emit(map[string]any{"ev": "Reset", "cfg": job.Cfg, "post": snap()})
+	idBase := map[string]int{}
+	for _, n := range []string{"A", "B"} {
+		sn := S[n].ag.VerifSnapshot()
+		idBase[n] = int(sn.NextPairID) - len(sn.Pairs)
+	}
+	emit(map[string]any{"ev": "Reset", "cfg": job.Cfg, "preResidue": preResidue, "idBase": idBase, "post": snap()})
 	loss, dup, inj, rst, renoms, badRenoms, dataOps, pidCtr := 0, 0, 0, 0, 0, 0, 0, 0
 	type act struct {
 		ev, ag string
